@@ -25,11 +25,13 @@ where
 {
     let path = path.as_ref().to_path_buf();
     let format = Format::from_path(&path)?;
-    let source = read_config(&path)?;
+    // An Err here could come because mtime isn't available, so don't bail.
+    // The mtime is taken before the text, like the reloader does: an edit that lands between the
+    // two is then seen as a change by the first poll instead of being missed.
+    let modified = fs::metadata(&path).and_then(|m| m.modified()).ok();
     #[cfg(feature = "verif_hooks")]
     crate::verif_hooks::critical_section_point("init_file:between-read-and-stat");
-    // An Err here could come because mtime isn't available, so don't bail
-    let modified = fs::metadata(&path).and_then(|m| m.modified()).ok();
+    let source = read_config(&path)?;
     let config = format.parse(&source)?;
 
     let refresh_rate = config.refresh_rate();
@@ -253,9 +255,9 @@ impl VerifReloader {
     ) -> anyhow::Result<(Config, Option<Duration>, VerifReloader)> {
         let path = path.to_path_buf();
         let format = Format::from_path(&path)?;
-        let source = read_config(&path)?;
-        crate::verif_hooks::critical_section_point("init_file:between-read-and-stat");
         let modified = fs::metadata(&path).and_then(|m| m.modified()).ok();
+        crate::verif_hooks::critical_section_point("init_file:between-read-and-stat");
+        let source = read_config(&path)?;
         let config = format.parse(&source)?;
         let refresh_rate = config.refresh_rate();
         let config = deserialize(&config, &deserializers);
